@@ -364,6 +364,17 @@ ExpectedAfterGrowth(h, pre, pe) ==
         n == Min(ShortestPrefix(q, W, need, 0, 0), Len(q))
     IN Range(Prefix(q, n))
 
+\* single-threaded cache: an in-place update that grows the entry restores the bound before it
+\* returns: after the prelude, the shortest prefix of the recency order (the updated key now most
+\* recent) that frees the excess
+GrowthEvicted(hs, pre, e) ==
+    IF ~(e.ev = "Insert" /\ ~IsSync(hs) /\ hs.cfg.cap # None /\ InSeq(Order2(hs, pre, e.now), e.k)) THEN {}
+    ELSE LET q == Append(Without(Order2(hs, pre, e.now), e.k), e.k)
+             W == [x \in HKeys(hs) |-> IF x = e.k THEN e.w ELSE WFun(hs, pre)[x]]
+             need == SatSub(SeqSum([i \in DOMAIN q |-> W[q[i]]]), hs.cfg.cap)
+             n == Min(ShortestPrefix(q, W, need, 0, 0), Len(q))
+         IN Range(Prefix(q, n))
+
 Allowed_C12(hs, pre, e) ==
     /\ PairUpdate(hs, e) =>
           LET h == PairHist(hs)  pe == PairEvent(hs, e)
@@ -374,9 +385,10 @@ Allowed_C12(hs, pre, e) ==
     /\ (IsOp(e) /\ ~IsSync(hs) /\ ~HasF(e.snap, "dropped")) =>
           \* the fate of the key the call itself names is not a capacity matter
           LET own == (IF e.ev = "Insert" THEN {e.k} ELSE {}) \cup Targeted(hs, e) \cup Ambiguous(hs, e)
-          IN LostLive(hs, pre, e) \ own = ExpectedEvicted(hs, pre, e) \ own
+          IN LostLive(hs, pre, e) \ own = (ExpectedEvicted(hs, pre, e) \cup GrowthEvicted(hs, pre, e)) \ own
 NT_C12(hs, pre, e) ==
-    \/ IsOp(e) /\ ~IsSync(hs) /\ (LostLive(hs, pre, e) # {} \/ ExpectedEvicted(hs, pre, e) # {})
+    \/ IsOp(e) /\ ~IsSync(hs) /\ (LostLive(hs, pre, e) # {} \/ ExpectedEvicted(hs, pre, e) # {}
+                                   \/ GrowthEvicted(hs, pre, e) # {})
     \/ PairReady(hs, e) /\ IsContest(PairHist(hs), hs.pend.pre, PairEvent(hs, e))
     \/ PairUpdate(hs, e) /\ ExpectedAfterGrowth(PairHist(hs), hs.pend.pre, PairEvent(hs, e)) # {}
 
@@ -472,6 +484,8 @@ Allowed_C15(hs, pre, e) ==
               r.k \in KeysIn(pre.res) => r.la = Ent(pre.res, r.k).la
         /\ OrderOfCommon(pre, e.snap)                                  \* recency untouched
         /\ KeysIn(e.snap.res) \subseteq KeysIn(pre.res)
+        \* an observation removes nothing that another lookup would still have returned
+        /\ \A k \in KeysIn(pre.res) \ KeysIn(e.snap.res) : ~RefLive(hs, k, e.now)
 NT_C15(hs, pre, e) == e.ev \in {"Contains", "Iter"} /\ pre.res # <<>>
 
 -----------------------------------------------------------------------------
